@@ -16,7 +16,7 @@ Import ListNotations.
 Require Import MD.Lib.Strided MD.Load.Model.
 
 (* ------------------------------------------------------------------ expressions over nat + infinity *)
-Inductive expr := Vi | Vn | Vs | VT | Cst (k : nat)
+Inductive expr := Vi | Vn | Vs | VT | Vo | Cst (k : nat)     (* Vo = the offset argument of seek() *)
   | Add (a b : expr) | Sub (a b : expr) | Mul (a b : expr) | Min (a b : expr).
 
 Definition enat := option nat.          (* None = +infinity (np.inf) *)
@@ -29,11 +29,11 @@ Definition emul (a b : enat) : enat :=
 Definition emin (a b : enat) : enat :=
   match a, b with Some x, Some y => Some (Nat.min x y) | None, y => y | x, None => x end.
 
-Record env := mkenv { e_i : nat; e_n : enat; e_s : nat; e_T : nat }.
+Record env := mkenv { e_i : nat; e_n : enat; e_s : nat; e_T : nat; e_o : nat }.
 
 Fixpoint eval (v : env) (e : expr) : enat :=
   match e with
-  | Vi => Some (e_i v) | Vn => e_n v | Vs => Some (e_s v) | VT => Some (e_T v) | Cst k => Some k
+  | Vi => Some (e_i v) | Vn => e_n v | Vs => Some (e_s v) | VT => Some (e_T v) | Vo => Some (e_o v) | Cst k => Some k
   | Add a b => eadd (eval v a) (eval v b)
   | Sub a b => esub (eval v a) (eval v b)
   | Mul a b => emul (eval v a) (eval v b)
@@ -42,7 +42,7 @@ Fixpoint eval (v : env) (e : expr) : enat :=
 
 Fixpoint expr_eqb (a b : expr) : bool :=
   match a, b with
-  | Vi, Vi | Vn, Vn | Vs, Vs | VT, VT => true
+  | Vi, Vi | Vn, Vn | Vs, Vs | VT, VT | Vo, Vo => true
   | Cst x, Cst y => x =? y
   | Add a1 a2, Add b1 b2 | Sub a1 a2, Sub b1 b2 | Mul a1 a2, Mul b1 b2 | Min a1 a2, Min b1 b2 =>
       expr_eqb a1 b1 && expr_eqb a2 b2
@@ -78,7 +78,7 @@ Definition nat_or (d : nat) (x : enat) : nat := match x with Some k => k | None 
 Definition slice_sem (t : sterm) (f : list A) (s : st) (n : option nat) (str : nat) (ai : option (A -> A))
   : st * res A :=
   let T := length f in
-  let v := mkenv (pos s) n str T in
+  let v := mkenv (pos s) n str T 0 in
   if guard_holds v (s_guard t) then (s, Ok [])
   else
     let a := nat_or T (eval v (s_start t)) in
@@ -125,7 +125,7 @@ Fixpoint loop_run (m skip : nat) (ke : keep_eof) (se : skip_eof) (p : nat) (f : 
 Definition loop_sem (t : lterm) (f : list A) (s : st) (n : option nat) (str : nat) (ai : option (A -> A))
   : st * res A :=
   let T := length f in
-  let v := mkenv (pos s) n str T in
+  let v := mkenv (pos s) n str T 0 in
   let m := match n with Some _ => nat_or (S T) (eval v (l_iters t)) | None => S T end in
   let k := nat_or 0 (eval v (l_skip t)) in
   let '(p', r) := loop_run m k (l_keep_eof t) (l_skip_eof t) (pos s) f ai in
@@ -145,14 +145,26 @@ Definition pass_sem (t : pterm) (rdf : list A -> st -> option nat -> nat -> opti
   (f : list A) (s : st) (n : option nat) (str : nat) (ai : option (A -> A)) : st * res A :=
   rdf f s (if p_n t then n else None) (if p_stride t then str else 1) (if p_ai t then ai else None).
 
-Inductive kterm := KAssign       (* whence == 0 and offset >= 0: self._frame_index = offset *)
-                 | KByReading    (* advance by reading offset - index frames, or reopen and read offset frames *)
-                 | KRaises.      (* raise NotImplementedError() *)
+Inductive kterm :=
+  | KAssign       (* whence == 0 and offset >= 0: self._frame_index = offset *)
+  | KByReading (strict : bool) (adv ab : expr)
+      (* if offset >= index (strict: >): advance = <adv>, read that many frames; else absolute = <ab>: reopen the
+         file and read that many frames.  Expressions over Vo = offset, Vi = self._frame_index *)
+  | KRaises.      (* raise NotImplementedError() *)
 
+(* reading a frame past the end inside seek() lets _EOF escape: None *)
 Definition seek_sem (t : kterm) (f : list A) (s : st) (k : nat) : option st :=
   match t with
   | KAssign => Some (mkst k k (offs s))
-  | KByReading => if k <=? length f then Some (mkst k k (offs s)) else None
+  | KByReading strict adv ab =>
+      let c := cnt s in
+      let v := mkenv c None 1 (length f) k in
+      if (if strict then c <? k else c <=? k) then
+        let a := nat_or 0 (eval v adv) in
+        if pos s + a <=? length f then Some (mkst (c + a) (pos s + a) (offs s)) else None
+      else
+        let b := nat_or 0 (eval v ab) in
+        if b <=? length f then Some (mkst b b (offs s)) else None
   | KRaises => None
   end.
 
@@ -285,7 +297,8 @@ Definition classify (r : rterm) : option fam :=
   if check_pass (r_pass r) then
     match r_read r, r_seek r with
     | BSlice t, KAssign => check_slice t
-    | BLoop t, KByReading => if check_loop t then Some FSeq else None
+    | BLoop t, KByReading _ adv ab =>
+        if check_loop t && expr_eqb adv (Sub Vo Vi) && expr_eqb ab Vo then Some FSeq else None
     | BLoop t, KRaises => if check_loop t then Some FSeqNoSeek else None
     | _, _ => None
     end
